@@ -172,7 +172,7 @@ def run_contract(qualname, scenario_index, tier, seed, falsify_n):
                 if kind == "exc":
                     # an exception escaping verify on a feasible path
                     ob = core.Obligation(
-                        f"{qualname}#no_exception", pc, z3.BoolVal(False), "safety",
+                        f"{contract.key}#no_exception", pc, z3.BoolVal(False), "safety",
                         {"path": tr, "scenario": scenario,
                          "detail": "".join(traceback.format_exception_only(type(val), val)).strip()[:300]},
                     )
